@@ -240,9 +240,13 @@ class Codec:
                 cheksum_base = self.SOH.join(msg[:-1])
                 checksum = (sum([ord(i) for i in cheksum_base]) + 1) % 256
 
-                if checksum != int(value):
+                try:
+                    checksum_value = int(value)
+                except ValueError:
+                    checksum_value = -1
+                if checksum != checksum_value:
                     logging.warning(
-                        "\tCheckSum: %s (INVALID) expecting %s" % (int(value), checksum)
+                        "\tCheckSum: %s (INVALID) expecting %s" % (value, checksum)
                     )
                     assert (
                         silent
